@@ -73,6 +73,21 @@ fn fresh_vm() -> Vm {
     vm
 }
 
+/// K5: RuntimeBalances::to_vm iterates its hashbrown map.  For the EMPTY balance set used here the
+/// iteration does nothing; the model performs the rest of to_vm (grow the stack by the balance table,
+/// move $ssp, store the balances) without touching the map.
+pub(crate) fn to_vm_model<M, S, Tx, Ecal, V>(this: crate::interpreter::RuntimeBalances, vm: &mut Interpreter<M, S, Tx, Ecal, V>)
+where
+    M: crate::interpreter::Memory,
+    Tx: crate::interpreter::ExecutableTransaction,
+{
+    let len = (vm.max_inputs() as usize).saturating_mul(40) as Word; // BALANCE_ENTRY_SIZE = asset id + word
+    let new_ssp = vm.registers[R_SSP].checked_add(len).unwrap();
+    vm.memory_mut().grow_stack(new_ssp).unwrap();
+    vm.registers[R_SSP] = new_ssp;
+    vm.balances = this;
+}
+
 macro_rules! ih {
     ($name:ident, $body:block) => {
         #[kani::proof]
@@ -84,6 +99,7 @@ macro_rules! ih {
         #[kani::stub(fuel_crypto::Hasher::hash, toy_hash)]
         #[kani::stub(fuel_crypto::Hasher::input, hasher_input_noop)]
         #[kani::stub(fuel_crypto::Hasher::finalize, hasher_finalize_const)]
+        #[kani::stub(crate::interpreter::RuntimeBalances::to_vm, to_vm_model)]
         pub fn $name() $body
     };
 }
